@@ -374,10 +374,31 @@ fn small_scope(ctx: &Ctx, ev: &mut crate::evidence::Evidence) {
     }
 }
 
+/// part real-chains: the chains of 1..4 stages that C08 generates (every group, hard polygons / discs and Lennard-Jones,
+/// from_group and rescaled starts, step sizes 1e-3..8), run plainly; only "returns without panicking" is judged here
+fn real_chain_oracle(c: &crate::props::c08::ChainCase, rec: &Rec, _: &Ctx) -> Result<(), String> {
+    match crate::props::c08::run_chain_plain(c)? {
+        None => rec.class("skipped-start-without-finite-score"),
+        Some(done) => {
+            rec.eval(c.stages.iter().take(done).map(|s| s.steps).sum::<u64>());
+            let class = format!("{:?}/stages{}", c.kind, done);
+            rec.class(&class);
+            if done >= 2 {
+                rec.nontrivial(hash_json(&serde_json::to_value(c).unwrap()));
+            }
+            if rec.wants_sample(&class) {
+                rec.sample(&class, || serde_json::to_value(c).unwrap());
+            }
+        }
+    }
+    Ok(())
+}
+
 pub fn parts() -> Vec<PartDef> {
     vec![
         part("work", 80_000, 1_600_000, work_strat, work_oracle),
         crate::engine::custom_part("small-scope", small_scope, |_, _, _| Err("findings of the enumeration are replayed through the work part".to_string())),
         part("cli", 640, 12_000, cli_strat, cli_oracle),
+        part("real-chains", 6_000, 200_000, crate::props::c08::chain_strat_for_c20, real_chain_oracle),
     ]
 }
